@@ -115,6 +115,60 @@ def run(ctx):
     ctx.correspond("bin_de_fault_model", bde, nontrivial=lambda c, i: i == "ERR:io")
     # <<< a_c20
 
+    # >>> w_tdef (wave 5): the extracted walk model of the TEXT reader deserializer (TextDeReader.deser_text_reader, the
+    # function Props/C20_textde.v is stated over: TextDeStream.sde_root over the byte-level reader with Fail events)
+    # run on the SAME fault cases, plus directed documents (ghost objects, ignored containers, tuples, operators,
+    # quoted scalars, `==`) under 1-/2-/3-byte reads with a fault at every read-call index
+    tde = ["c20.tde" + c[len("de.text"):] for c in fcases if c.startswith("de.text\t")]
+    ctx.correspond("text_de_fault_model", tde, nontrivial=lambda c, i: i == "ERR:io")
+    H = lambda b: hx(b if isinstance(b, bytes) else b.encode())
+    directed = [
+        (b'a=1 b={1 2 3} {} c={x=1 y=2} d="q r" e=yes\n', "struct(%s:i32,%s:seq(i32),%s:ign,%s:str,%s:bool)" % tuple(H(k) for k in "abcde")),
+        (b'a={1 2} {} b={ {} k=v } c=3', "map(ign)"),
+        (b't={1 2} u={3 4 5}', "struct(%s:tup(i32,i32),%s:tup(i32,i32))" % (H("t"), H("u"))),
+        (b'a>=5 b<3 c==4 d=7', "map(prop(i32))"),
+        (b'a = b c== d e = = f', "map(str)"),
+        (b'\xef\xbb\xbfa="x y" # c\nb=@[1+2] c={}', "map(any)"),
+        (b'a=1 a=2 b={a=1} a=3', "struct(%s*:i32,%s:opt(map(i32)))" % (H("a"), H("b"))),
+        (b'k=rgb {1 2 3} m=hsv{ 1 2 }', "map(any)"),
+        (b'a="unterminated', "map(str)"),
+        (b'a={1 2', "map(seq(i32))"),
+    ]
+    dcalls, dmeta = [], []
+    for txt, shp in directed:
+        for enc in ("w1252", "utf8"):
+            for buf, sched in ((16, "1*"), (16, "2*"), (24, "3,1*"), (64, "-")):
+                dcalls.append("\t".join(["c20.tde.calls", "reader:%d:%s" % (buf, sched), enc, shp, hx(txt)]))
+                dmeta.append((txt, shp, enc, buf, sched))
+    ic, mc = ctx.correspond("text_de_calls_model", dcalls, nontrivial=lambda c, i: i.endswith("ok"))
+    bcalls = len(ic) - len(dcalls)
+    dfault = []
+    for j, (txt, shp, enc, buf, sched) in enumerate(dmeta):
+        o = ic[bcalls + j]
+        # number of read calls of the fault-free run (successful runs print it; failing ones: bound by the size)
+        try:
+            ncalls = int(o.split()[0].split("=")[1]) if o.endswith("ok") else len(txt) + 3
+        except (ValueError, IndexError):
+            continue
+        ks = list(range(ncalls)) if ncalls <= ctx.scale(12, 400) else sorted(set(rng.randrange(ncalls) for _ in range(ctx.scale(12, 400))))
+        for k in ks:
+            kindf = "FP"[(k + j) % 2] if ctx.tier == "quick" else None
+            for kf in ((kindf,) if kindf else ("F", "P")):
+                dfault.append("\t".join(["c20.tde", "reader:%d:%s@%d%s" % (buf, sched, k, kf), enc, shp, hx(txt)]))
+                dfault.append("\t".join(["c20.tde.calls", "reader:%d:%s@%d%s" % (buf, sched, k, kf), enc, shp, hx(txt)]))
+    idf, _ = ctx.correspond("text_de_directed_faults", dfault, nontrivial=lambda c, i: i in ("ERR:io", "err"))
+    bdf = len(idf) - len(dfault)
+    # oracle on the real code (C20_text_deser_reader_fault_at_k): a run with a failure at read call k that still returns
+    # Ok has issued at most k read calls
+    for j, c in enumerate(dfault):
+        o = idf[bdf + j]
+        if c.startswith("c20.tde.calls") and o.endswith("ok"):
+            k = int(c.split("\t")[1].split("@")[1][:-1])
+            ncall = int(o.split()[0].split("=")[1])
+            if ncall > k:
+                fail("fault-reached-but-ok", "failure at read call %d, the run issued %d read calls and still returned Ok" % (k, ncall), [c], [o], "err")
+    # <<< w_tdef
+
 
 def search(ctx):
     import random
